@@ -70,3 +70,30 @@ Theorem C09_glencoe_nary_terms : forall fuel fi ty o x xs n ns,
   glencoe_parse_ctc (S fuel) fi (nary_term ty (x :: xs)) = Ok (fold_left (fun acc y => bin o acc y) ns n).
 Proof. exact glencoe_nary_fold. Qed.
 Print Assumptions C09_glencoe_nary_terms.
+
+(* non-vacuity: a reference model with an empty relation, a negative cardinality and two constraints is in
+   the FaMa fragment; a FeatureIDE document with graphics / description elements and unique attribute keys
+   is read, and read the same after stripping *)
+Definition ex09 : xml :=
+  Elem "featureModel" [] None
+    [ Elem "struct" [] None
+        [ Elem "and" [("mandatory", "true"); ("name", "R")] None
+            [ Elem "graphics" [("key", "collapsed"); ("value", "false")] None [];
+              Elem "description" [] (Some "root") [];
+              Elem "feature" [("name", "A"); ("mandatory", "false")] None [];
+              Elem "alt" [("abstract", "true"); ("name", "G")] None
+                [ Elem "feature" [("name", "B")] None []; Elem "feature" [("name", "C")] None [] ] ] ];
+      Elem "constraints" [] None
+        [ Elem "rule" [] None [ Elem "disj" [] None [ Elem "var" [] (Some "A") []; Elem "var" [] (Some "B") [];
+                                                       Elem "not" [] None [Elem "var" [] (Some "C") []] ] ] ] ]%string.
+Example C09_nonvacuous :
+  fama_ok ref_m1 = true /\ xml_keys_unique ex09
+  /\ (exists pm, fide_read ex09 = Ok pm /\ List.length (pctcs pm) = 1%nat)
+  /\ fide_read (fide_strip ex09) = fide_read ex09.
+Proof.
+  split; [exact ref_m1_ok|]. split.
+  - repeat first [apply KU | apply Forall_cons | apply Forall_nil | apply NoDup_cons | apply NoDup_nil
+                  | (cbn; intuition discriminate)].
+  - split; [vm_compute; eexists; split; reflexivity|]. vm_compute. reflexivity.
+Qed.
+Print Assumptions C09_nonvacuous.
